@@ -55,6 +55,7 @@ def run_unit(A, unit, rep, tier):
     elif kind == "flush_buffer":
         check_flush_buffer(A, rep)
         check_metadata_writers(A, rep)
+        check_metadata_source(A, rep)
         check_not_swallowed(A, rep)
     else:
         check_context(A, rep)
@@ -148,6 +149,38 @@ def check_not_swallowed(A, rep):
                 r, w = bad
                 last_fn = next((g.nodes[i].func for i in w if g.nodes[i].kind in ("ret",) ), r.func)
                 rep.fail("C07.g", norm_key("C07.g", last_fn), f"a BufferedError raised during a flush can be swallowed (e.g. by a return inside finally in {last_fn}): the conflict is never reported although the buffered change is dropped", g.witness(w), g.label)
+
+
+_FOLLOWING_STATS = ("os.stat", "os.path.getmtime", "os.path.getsize", "os.fstat")
+_LINK_STATS = ("os.lstat",)
+
+
+def check_metadata_source(A, rep):
+    """(h) the metadata compared at flush time describe the file the writer opens / replaces: they are taken by a
+    stat call that follows symbolic links, addressed through the object's own file name.  Metadata of the link
+    itself (os.lstat, follow_symlinks=False) never change when the file behind the link is rewritten, so a foreign
+    change of a collection whose file name is a symbolic link would never be detected."""
+    seen = {}
+    for cls in A.concrete():
+        if A.is_buffered(cls):
+            owner, v = A.model.lookup(cls, "_get_file_metadata")
+            if v is None:
+                raise AnalysisError(f"anchor: {cls.name} has no _get_file_metadata")
+            seen.setdefault(v.func, cls)
+    for func, cls in seen.items():
+        b, g = A.graph(cls, "_get_file_metadata", "root", "none")
+        rep.context(g.label, True)
+        calls = [n for n in live(g) if n.kind == "call_ext" and isinstance(n["callee"], str) and (n["callee"] in _FOLLOWING_STATS or n["callee"] in _LINK_STATS)]
+        if not calls:
+            raise AnalysisError(f"anchor: {func.qualname} contains no stat call this check knows; not decided")
+        for n in calls:
+            nofollow = n["callee"] in _LINK_STATS or any(k == "follow_symlinks" and v != Val("const", True) for k, v in (n["kwargs"] or ()))
+            if nofollow:
+                rep.fail("C07.h", norm_key("C07.h", func.qualname, "link-metadata"),
+                         f"{func.qualname}: `{n.stmt}` takes the metadata of a symbolic link itself, not of the file behind it: a foreign rewrite of the file of a collection whose file name is a link is never noticed and the flush overwrites it silently",
+                         [n.where() + ": " + n.stmt], g.label)
+            else:
+                rep.ok("C07.h", f"C07.h {func.qualname}: `{n.stmt}` follows symbolic links (metadata of the file that is written)")
 
 
 def check_metadata_writers(A, rep):
